@@ -264,6 +264,18 @@ impl Domain {
         d.attr_classes = vec![("plain", 1)];
         d
     }
+    /// the domain of the first phase of a run: same names and restrictions, none of the size-amplifying modes
+    pub fn small(&self) -> Domain {
+        let mut d = self.clone();
+        d.allow_wide = false;
+        d.chain_chance = 0;
+        d.amplify_chance = 0;
+        d.long_sequence_chance = 0;
+        d.max_nodes = d.max_nodes.min(12);
+        d.max_depth = d.max_depth.min(4);
+        d.max_docs = d.max_docs.min(3);
+        d
+    }
     pub fn without_classes(mut self, tags: &[&str]) -> Domain {
         self.elem_classes.retain(|(t, _)| !tags.contains(t));
         self.attr_classes.retain(|(t, _)| !tags.contains(t));
